@@ -140,6 +140,28 @@ let () =
         done;
         print_endline ("roots " ^ Buffer.contents buf);
         flush stdout
+      | ["reads"; kind; cmpid; name; key; wv; hexfile] ->
+        (* predicted ReadAt calls of GetItem / MinItem / MaxItem on a freshly opened store *)
+        let f = bytes_of_hex hexfile in
+        let name = bytes_of_hex name in
+        let show rs = String.concat " " ("r" :: List.map (fun (Rd (o, n)) -> Printf.sprintf "%d:%d" (int_of_z o) (int_of_z n)) rs) in
+        (match scan f (blen f) with
+         | ScanFound (_, m) ->
+           (match List.assoc_opt name m with
+            | None -> print_endline "nocoll"
+            | Some root ->
+              let (rs, _) =
+                (match kind with
+                 | "get" -> get_reads (S (nat_of_int (List.length f))) (cmp_of (nat_of_int (int_of_string cmpid))) f root (bytes_of_hex key) (wv = "t")
+                 | "min" -> minmax_reads f root true (wv = "t")
+                 | _ -> minmax_reads f root false (wv = "t")) in
+              print_endline (show rs))
+         | _ -> print_endline "noroots");
+        flush stdout
+      | ["openreads"; hexfile] ->
+        let rs = open_reads (bytes_of_hex hexfile) in
+        print_endline (String.concat " " ("r" :: List.map (fun (Rd (o, n)) -> Printf.sprintf "%d:%d" (int_of_z o) (int_of_z n)) rs));
+        flush stdout
       | ["quit"] -> exit 0
       | _ -> print_endline ("ERR unknown request: " ^ line); flush stdout
     done
